@@ -28,6 +28,9 @@ pub const FAMILIES: &[(&str, u64)] = &[
     ("deep-hints", 1),
     ("hostile", 2),
     ("big", 1),
+    ("many", 1),
+    ("many-excl", 1),
+    ("many-excl-hints", 1),
 ];
 
 /// Checks shared with other monitors: validity of an `Ok` result against the reference rules and
